@@ -1154,6 +1154,19 @@ func main() {
 		caseGlobFn(c, p, strs)
 		c.Count("globfn")
 	}
+	// every printable ASCII character in a pattern and in a name, in both cases where it has two: matching is
+	// case-insensitive for EVERY letter, and for no other character (the model folds with Char.toLower, ASCII)
+	for ch := 0x20; ch <= 0x7e; ch++ {
+		if ch == '*' {
+			continue
+		}
+		lo, up := strings.ToLower(string(rune(ch))), strings.ToUpper(string(rune(ch)))
+		names := []string{lo, up, lo + "x", up + "x", "x" + lo, "x" + up, "x" + lo + "y", "x" + up + "y", lo + lo, up + lo, lo + up, "", "x"}
+		for _, pat := range []string{lo, up, lo + "*", up + "*", "*" + lo, "*" + up, "*" + lo + "*", "*" + up + "*", "x" + up + "*", "*" + lo + "y"} {
+			caseGlobFn(c, pat, names)
+			c.Count("globfn.ascii")
+		}
+	}
 	c.Emit(map[string]any{"kind": "prodloop", "impl": <-loopRes})
 	c.Count("prodloop")
 	c.Close(map[string]any{"exhaustive": true,
